@@ -74,6 +74,42 @@ func VsymC39_Metadata() {
 	}
 }
 
+// VsymC39_Published: what the operator publishes is the freshly built metadata merged with the
+// snapshot already in etcd (mergeSnapshots). The cluster was built for r1 replicas and published;
+// the spec changes to r2 replicas (scale up or down, topics as before, possibly one topic known
+// only from the stored snapshot): every partition leader of the published result is a listed broker.
+func VsymC39_Published() {
+	mk := func(r int32) *kafscalev1alpha1.KafscaleCluster {
+		c := &kafscalev1alpha1.KafscaleCluster{ObjectMeta: metav1.ObjectMeta{Name: "prod", Namespace: "kafka"}}
+		c.Spec.Brokers.Replicas = &r
+		return c
+	}
+	r1, r2 := vsym_Int32("replicas-before"), vsym_Int32("replicas-after")
+	vsym_Assume(vsym_And(vsym_And(r1 >= 1, r1 <= 3), vsym_And(r2 >= 1, r2 <= 3)))
+	n := vsym_Int32("partitions")
+	vsym_Assume(vsym_And(n >= 1, n <= 4))
+	topic := kafscalev1alpha1.KafscaleTopic{ObjectMeta: metav1.ObjectMeta{Name: "t0"}}
+	topic.Spec.Partitions = n
+	extra := kafscalev1alpha1.KafscaleTopic{ObjectMeta: metav1.ObjectMeta{Name: "made-by-a-broker"}}
+	extra.Spec.Partitions = 3
+	stored := BuildClusterMetadata(mk(r1), []kafscalev1alpha1.KafscaleTopic{topic, extra})
+	fresh := BuildClusterMetadata(mk(r2), []kafscalev1alpha1.KafscaleTopic{topic})
+	published := mergeSnapshots(fresh, stored)
+	vsym_Reach("published")
+	vsym_Assert(int32(len(published.Brokers)) == r2, "C39/one-broker-per-replica")
+	ids := map[int32]bool{}
+	for _, b := range published.Brokers {
+		ids[b.NodeID] = true
+	}
+	vsym_Assert(len(published.Topics) == 2, "C39/every-topic-listed")
+	for _, t := range published.Topics {
+		for pi, p := range t.Partitions {
+			vsym_Assert(p.Partition == int32(pi), "C39/partitions-numbered-from-zero-without-gaps")
+			vsym_Assert(ids[p.Leader], "C39/leader-is-a-listed-broker")
+		}
+	}
+}
+
 func indexOfHost(hs []string, h string) int {
 	for i := range hs {
 		if hs[i] == h {
